@@ -195,13 +195,21 @@ COMBINATORS = {
     "sum_plus_tag": lambda DP: (lambda a, b: DP.Candidate(a.value + b.value + (1 if a.info == "a" else 0) + (2 if b.info == "b" else 0), (a.info, b.info))),
     "max_notag": lambda DP: (lambda a, b: DP.Candidate(max(a.value, b.value), None)),
     "diff": lambda DP: (lambda a, b: DP.Candidate(a.value - b.value, a.info + b.info)),
+    # not additive: maps an infinite operand to a finite result
+    "clip": lambda DP: (lambda a, b: DP.Candidate(max(-5, min(5, a.value)) + max(-5, min(5, b.value)), (a.info, b.info))),
 }
+
+
+def dec(h):
+    """Histories in replay files carry infinite values as the strings 'inf' / '-inf'."""
+    return [(math.inf if v == "inf" else (-math.inf if v == "-inf" else v), t) for v, t in h]
 
 
 def check_combine(ctx, DP, h1, h2, merge, retention, comb):
     case = {"kind": "combine", "h1": [list(h) for h in h1], "h2": [list(h) for h in h2], "merge": merge, "retention": retention, "comb": comb}
     mp = getattr(DP.MergePolicy, merge)
     rp = getattr(DP.RetentionPolicy, retention)
+    h1, h2 = dec(h1), dec(h2)
     e1, e2 = DP.Entry(mp, rp), DP.Entry(mp, rp)
     e1.update(*[DP.Candidate(v, t) for v, t in h1])
     e2.update(*[DP.Candidate(v, t) for v, t in h2])
@@ -454,6 +462,18 @@ def run(ctx, spec):
             h1 = [(v, t or "x") for v, t in h1]
             h2 = [(v, t or "y") for v, t in h2]
         check_combine(ctx, DP, h1, h2, merge, retention, comb)
+    # combine with infinite candidates: an entry all of whose candidates are infinitely bad still retains their tags, an
+    # infinitely good candidate wins; one sign of infinity per case (inf - inf is not a number)
+    for k in range(300 if ctx.tier == "quick" else 6000):
+        merge, retention = policies[k % len(policies)]
+        infv = rng.choice([math.inf, -math.inf])
+        pool = [0, 1, 2, infv, infv]
+        h1 = [(rng.choice(pool), rng.choice(TAGS)) for _ in range(rng.randint(1, 3))]
+        h2 = [(rng.choice(pool), rng.choice(TAGS)) for _ in range(rng.randint(0, 3))]
+        if k % 3 == 0:
+            h1 = [(infv, t) for _, t in h1]
+        ctx.count("mon.combine_infinite")
+        check_combine(ctx, DP, h1, h2, merge, retention, rng.choice(["sum", "sum_plus_tag", "max_notag", "clip", "clip"]))
     # independence of cells on every List/Dict shape of 1-3 dimensions
     for k in range(120 if ctx.tier == "quick" else 2500):
         shape = SHAPES[(k + spec["i"]) % len(SHAPES)]
